@@ -17,6 +17,7 @@ import (
 	"golang.org/x/net/html"
 	"path"
 	"github.com/duo-labs/webauthn/webauthn"
+	htmlpkg "html"
 )
 
 // ---------------------------------------------------------------------------
@@ -204,9 +205,47 @@ func runC17(t *testing.T, cases []map[string]interface{}, ev *vEvents) {
 		}
 		loc := vWireHeader.Replace(r.Header.Get("Location"))
 		redirected := r.Status >= 300 && r.Status < 400
+		if !redirected {
+			// a page instead of a redirect: the page's own scripts (U2F, WebAuthn, push) finish the login by navigating to the
+			// value of its hidden destination field - that value is a redirect keymasterd emits, too
+			if m := vHiddenDestRe.FindSubmatch(r.Body); m != nil {
+				loc = vWireHeader.Replace(htmlpkg.UnescapeString(string(m[1])))
+				redirected = true
+				note = strings.TrimSpace(note + " destination-field-of-the-page")
+			}
+		}
 		ev.Emit(map[string]interface{}{"i": i, "ev": "Dest", "case": c,
 			"out": map[string]interface{}{"redirected": redirected, "profile": loc == profilePath, "loc": vClassify(loc),
 				"panic": r.Panic != "", "status": r.Status, "location": fmt.Sprintf("%q", loc), "note": note}})
+		// the same destination on a second-factor attempt that FAILS: the page that comes back carries a destination field
+		// its scripts will navigate to once the user completes another factor
+		var fq *vReq
+		switch vStr(c, "handler") {
+		case "totp":
+			// (another user than the one of the successful attempt: failures are held against the user who makes them)
+			w.armTOTP("carol-f")
+			w.st.totpLocalTateLimitMutex.Lock()
+			delete(w.st.totpLocalRateLimit, "carol-f")
+			w.st.totpLocalTateLimitMutex.Unlock()
+			fq = &vReq{Method: "POST", Path: totpAuthPath, Cookies: map[string]string{authCookieName: w.mintCookie("carol-f", AuthTypePassword, 0)},
+				Form: url.Values{"OTP": {"000000"}, "login_destination": {dest}}}
+		case "vip":
+			fq = &vReq{Method: "POST", Path: vipAuthPath, Cookies: map[string]string{authCookieName: w.mintCookie("dave-f", AuthTypePassword, 0)},
+				Form: url.Values{"OTP": {"999999"}, "login_destination": {dest}}}
+		case "bootstrapotp":
+			fq = &vReq{Method: "POST", Path: bootstrapOtpAuthPath, Cookies: map[string]string{authCookieName: w.mintCookie("bob-f", AuthTypePassword, 0)},
+				Form: url.Values{"OTP": {"not-the-otp"}, "login_destination": {dest}}}
+		}
+		if fq != nil {
+			fq.Headers = html
+			fr := w.Do(*fq)
+			if m := vHiddenDestRe.FindSubmatch(fr.Body); m != nil && !(fr.Status >= 300 && fr.Status < 400) {
+				floc := vWireHeader.Replace(htmlpkg.UnescapeString(string(m[1])))
+				ev.Emit(map[string]interface{}{"i": len(cases) + i, "ev": "Dest", "case": c,
+					"out": map[string]interface{}{"redirected": true, "profile": floc == profilePath, "loc": vClassify(floc),
+						"panic": fr.Panic != "", "status": fr.Status, "location": fmt.Sprintf("%q", floc), "note": "destination-field-of-the-failure-page"}})
+			}
+		}
 	})
 	for _, w := range worlds {
 		w.Close()
@@ -606,3 +645,5 @@ func vBenignSibling(dest string) string {
 	}
 	return d
 }
+
+var vHiddenDestRe = regexp.MustCompile(`(?is)id="login_destination_input"[^>]*\bVALUE="([^"]*)"`)
